@@ -143,4 +143,17 @@ example : okWith (evalGroup {} ⟨[], exBase⟩ {} [exPay 1 2 1000000 1, exPay 2
     (fun s => s.payset.length == 2 && (acctOf ⟨[], exBase⟩ s.top 2).bal == 199000) = true := by decide
 example : StackOK exBase [({} : Layer)] := ⟨wf_empty, coherent_empty _, trivial⟩
 
+/-- a non-trivial instance of the hypotheses of `layers_lookup`: the child of a concrete accepted group over the top layer -/
+example : ∃ child, evalGroupChild {} ⟨[], exBase⟩ {} [exPay 1 2 1000000 1, exPay 2 1 1100000 2] = .ok child ∧
+    StackOK exBase [child, {}] ∧ child.accts.length = 3 := by
+  cases h : evalGroupChild {} ⟨[], exBase⟩ {} [exPay 1 2 1000000 1, exPay 2 1 1100000 2] with
+  | error e =>
+    have : (evalGroupChild {} ⟨[], exBase⟩ {} [exPay 1 2 1000000 1, exPay 2 1 1100000 2]).isOk = true := by decide
+    rw [h] at this; cases this
+  | ok child =>
+    refine ⟨child, rfl, child_stack_ok {} ⟨[], exBase⟩ {} child _ h ⟨wf_empty, coherent_empty _, trivial⟩, ?_⟩
+    have : (match evalGroupChild {} ⟨[], exBase⟩ {} [exPay 1 2 1000000 1, exPay 2 1 1100000 2] with
+      | .ok c => c.accts.length | .error _ => 0) = 3 := by decide
+    rw [h] at this; exact this
+
 end Props.C19
